@@ -33,14 +33,25 @@ def enumerate_universe(tier):
     return vecs, stats
 
 
-def exercise(s, ref_bytes=None):
-    """Run the library on structure s.  Returns the case record for Trace_Wire (JSON-able) plus notes."""
+def exercise(s, ref_bytes=None, incremental=False):
+    """Run the library on structure s.  Returns the case record for Trace_Wire (JSON-able) plus notes.
+    incremental: the PDU object is built step by step through its public attributes instead of in one call."""
     ref = W.enc_pdu(s)
     case = {'s': L.to_tla_json(s), 'ref': list(ref), 'lib': [], 'libOk': False, 'tl': False,
             'dec': L.to_tla_json(s), 'decOk': False, 'rt': L.to_tla_json(s), 'rtOk': False, 're': False}
     notes = {}
+    if incremental:
+        notes['built'] = 'step by step' if incremental is True else 'decoded, then extended'
     try:
-        x = L.to_lib(s)
+        if incremental == 'extended':
+            try:
+                x = L.to_lib_extended(s, W.enc_pdu)
+            except Exception as exc:      # noqa - the library cannot decode the shorter PDU: that is the other case's finding
+                x = None
+            if x is None:
+                return None, notes
+        else:
+            x = L.to_lib_incremental(s) if incremental else L.to_lib(s)
     except ValueError as exc:
         x = None
         notes['inexpressible'] = str(exc)
@@ -108,18 +119,31 @@ def run(prop, tier, v):
     vecs, ustats = enumerate_universe(tier)
     rng = random.Random(seed())
     cases, metas = [], []
-    for mode, s, b in vecs:
+    for k, (mode, s, b) in enumerate(vecs):
         c, notes = exercise(s)
         if bytes(c['ref']) != b:
             raise Machinery('wire_ref.py disagrees with TLC Enc on %s' % kinds_of(s))
         cases.append(c)
         metas.append(('tlc:' + mode, s, notes))
+        if s['t'] in (1, 2, 3, 4, 7) and (tier == 'thorough' or k % 4 == 0):
+            c, notes = exercise(s, incremental=True)
+            cases.append(c)
+            metas.append(('tlc:' + mode + ':incremental', s, notes))
+        if s['t'] in (1, 2, 4) and (tier == 'thorough' or k % 4 == 2):
+            c, notes = exercise(s, incremental='extended')
+            if c is not None:
+                cases.append(c)
+                metas.append(('tlc:' + mode + ':extended', s, notes))
     n_rand = 3000 if tier == 'quick' else 40000
     for i in range(n_rand):
         s = L.rand_pdu(rng)
-        c, notes = exercise(s)
+        inc = 'extended' if i % 7 == 3 else (i % 3 == 2)
+        c, notes = exercise(s, incremental=inc)
+        if c is None:
+            c, notes = exercise(s)
+            inc = False
         cases.append(c)
-        metas.append(('random', s, notes))
+        metas.append(('random:' + ('extended' if inc == 'extended' else 'incremental') if inc else 'random', s, notes))
     verdicts, tstats = judge(cases)
     n_mine = 0
     other = {}
